@@ -15,7 +15,7 @@ use std::sync::atomic::{AtomicBool, Ordering};
 use tokio::net::{TcpListener, TcpStream};
 
 const RULE: &str = "one case = one cell of the full matrix {server certificate issued by the client's trusted CA / another CA / self-signed} x {requested name matches / differs} x {skip-verify on/off} x {client certificate: none / under the server's client CA / under another CA} x {server client-CA configured / not} (72 cells, both ECDSA P-256 and P-384 material in thorough), \
-each executed as a real handshake over loopback through run_listener + tls_connect followed by GET /health; plus a CertificateRequest probe with a recording client-certificate resolver, identity reload cycles with an established connection kept open, and the operator's path (server_main with certificate files, files replaced, SIGUSR1, three or more times in a row, with and without a client CA) after each of which the client-certificate column and the CertificateRequest probe are repeated. \
+each executed as a real handshake over loopback through run_listener + tls_connect followed by GET /health; plus a CertificateRequest probe with a recording client-certificate resolver, probes with CA bundles that contain no certificate (server client-CA, reload, client roots) while the system trust store holds a CA that would accept the peer, identity reload cycles with an established connection kept open, and the operator's path (server_main with certificate files, files replaced, SIGUSR1, three or more times in a row, with and without a client CA) after each of which the client-certificate column and the CertificateRequest probe are repeated. \
 Oracle: the reference truth table of the statement. Exhaustive over the matrix. Non-trivial = every cell; distinct = distinct (cell, key type)";
 
 struct Pki {
@@ -66,6 +66,19 @@ fn make_pki(alg: &'static rcgen::SignatureAlgorithm) -> Pki {
         w(&format!("srv-{tag}.pem"), &c);
         w(&format!("srv-{tag}.key"), &k);
     }
+    // a "public" CA that sits in the process's system trust store (SSL_CERT_FILE) but in no bundle given to penguin
+    let (capp, capk, cappem) = ca("verif public CA (system trust store only)", alg);
+    w("capub.pem", &cappem);
+    {
+        let (c, k) = leaf("localhost", names.clone(), Some((&capp, &capk)), false, alg);
+        w("srv-pub.pem", &c);
+        w("srv-pub.key", &k);
+        let (c, k) = leaf("verif client (public CA)", vec![], Some((&capp, &capk)), true, alg);
+        w("cli-pub.pem", &c);
+        w("cli-pub.key", &k);
+    }
+    w("empty.pem", "");
+    w("comments.pem", "# no certificate in here\n\n");
     for (tag, issuer) in [("trusted", (&caxp, &caxk)), ("other", (&ca2p, &ca2k))] {
         let (c, k) = leaf("verif client", vec![], Some(issuer), true, alg);
         w(&format!("cli-{tag}.pem"), &c);
@@ -247,6 +260,52 @@ async fn reload(st: &mut Stats, pki: &Pki, cycles: usize) {
     }
 }
 
+/// A CA bundle that contains no certificate gives no trust anchors: it must not silently turn into "the system's roots".
+/// (The process's system trust store holds `capub.pem`, see `run`.)
+async fn empty_bundle_probes(st: &mut Stats, pki: &Pki) {
+    for bundle in ["empty.pem", "comments.pem"] {
+        st.evaluations += 1;
+        let b = pki.p(bundle);
+        let replay = json!({"kind": "c17-empty-bundle", "bundle": bundle});
+        // server side: client CA bundle without certificates
+        match make_tls_identity(&pki.p("srv-trusted.pem"), &pki.p("srv-trusted.key"), Some(b.as_str())).await {
+            Err(_) => st.count("empty_client_ca_bundle_refused_at_startup", 1),
+            Ok(identity) => {
+                let addr = start(identity).await;
+                let got = reaches(addr, "localhost", Some(&pki.p("cli-pub.pem")), Some(&pki.p("cli-pub.key")), Some(&pki.p("ca1.pem")), false).await;
+                if got != Ok(false) {
+                    st.violation(Violation { signature: "empty-client-ca-bundle|system-roots-accepted".into(), detail: format!("a server whose client-CA bundle ({bundle}) contains no certificate started and served a client whose certificate was issued by a CA of the system trust store ({got:?})"), replay: replay.clone() });
+                }
+            }
+        }
+        // reload with such a bundle must not widen the policy either
+        if let Ok(identity) = make_tls_identity(&pki.p("srv-trusted.pem"), &pki.p("srv-trusted.key"), Some(&pki.p("cax.pem"))).await {
+            let addr = start(identity.clone()).await;
+            let _ = reload_tls_identity(&identity, &pki.p("srv-trusted.pem"), &pki.p("srv-trusted.key"), Some(b.as_str())).await;
+            let pubc = reaches(addr, "localhost", Some(&pki.p("cli-pub.pem")), Some(&pki.p("cli-pub.key")), Some(&pki.p("ca1.pem")), false).await;
+            let none = reaches(addr, "localhost", None, None, Some(&pki.p("ca1.pem")), false).await;
+            if pubc != Ok(false) || none != Ok(false) {
+                st.violation(Violation { signature: "empty-client-ca-bundle|reload-widened-policy".into(), detail: format!("after a reload with a client-CA bundle without certificates ({bundle}) the server served a client with a system-trusted certificate ({pubc:?}) or without certificate ({none:?})"), replay: replay.clone() });
+            }
+        }
+        // client side: root bundle without certificates, server certificate issued by a system-trusted CA
+        if let Ok(identity) = make_tls_identity(&pki.p("srv-pub.pem"), &pki.p("srv-pub.key"), None).await {
+            let addr = start(identity).await;
+            let got = reaches(addr, "localhost", None, None, Some(b.as_str()), false).await;
+            if got != Ok(false) {
+                st.violation(Violation { signature: "empty-root-bundle|system-roots-trusted".into(), detail: format!("a client given a root bundle without certificates ({bundle}) reached a server whose certificate validates only against the system trust store ({got:?})"), replay: replay.clone() });
+            }
+            // control: with the public CA given explicitly the same server is reachable
+            let ctl = reaches(addr, "localhost", None, None, Some(&pki.p("capub.pem")), false).await;
+            if ctl != Ok(true) {
+                st.inconclusive.push(format!("c17 empty-bundle control failed: {ctl:?}"));
+            }
+        }
+        st.target("empty_bundle_probes", 1);
+        st.nontrivial(mix(crate::util::fnv(bundle.as_bytes()), 0xE17));
+    }
+}
+
 /// The operator's path: `server_main` with --tls-cert/--tls-key(/--tls-ca), the files replaced on disk and SIGUSR1 sent to the process,
 /// several times in a row. After every reload the whole client-certificate column is re-checked: the identity changes, the policy does not.
 async fn reload_by_signal(st: &mut Stats, pki: &Pki, cycles: usize, client_ca: bool) {
@@ -360,8 +419,14 @@ pub fn run(p: &Params) -> (Stats, &'static str) {
             continue;
         }
         let pki = make_pki(alg);
+        // the process's "system trust store": one throw-away CA that no bundle handed to penguin contains
+        // (single-threaded at this point of every iteration's start: the runtime's workers are idle)
+        unsafe {
+            std::env::set_var("SSL_CERT_FILE", pki.p("capub.pem"));
+        }
         rt.block_on(matrix(&mut st, &pki, name));
         rt.block_on(reload(&mut st, &pki, if p.tier_thorough { 6 } else { 2 }));
+        rt.block_on(empty_bundle_probes(&mut st, &pki));
         for client_ca in [true, false] {
             rt.block_on(reload_by_signal(&mut st, &pki, if p.tier_thorough { 6 } else { 3 }, client_ca));
         }
